@@ -8,7 +8,7 @@
 (*              | hist (K call histories p, q, p)  | pct (the k/100 sweep) *)
 (*              | freq (large boards)                                      *)
 (***************************************************************************)
-EXTENDS GeneratorRules, Json, IOUtils, SequencesExt
+EXTENDS GeneratorRules, Json, IOUtils, SequencesExt, Randomization
 
 K      == atoi(IOEnv.GEN_K)
 Family == IOEnv.GEN_FAMILY
@@ -35,6 +35,25 @@ OneOff ==
     \cup {[Default EXCEPT !.tb = v] : v \in ProbGrid} \cup {[Default EXCEPT !.lt = v] : v \in ProbGrid}
     \cup {[Default EXCEPT !.fd = TRUE]}
 
+\* two parameters at a time off their defaults: every pair of boundary values
+Vals == [seed |-> {-1, 0, 1}, width |-> {-1, 0, 1, 2}, length |-> {-1, 0, 1, 2}, maxr |-> {-1, 0, 1, 2}]
+TwoOff ==
+    {[Default EXCEPT !.seed = a, !.width = b] : a \in Vals.seed, b \in Vals.width}
+    \cup {[Default EXCEPT !.seed = a, !.length = b] : a \in Vals.seed, b \in Vals.length}
+    \cup {[Default EXCEPT !.seed = a, !.maxr = b] : a \in Vals.seed, b \in Vals.maxr}
+    \cup {[Default EXCEPT !.width = a, !.length = b] : a \in Vals.width, b \in Vals.length}
+    \cup {[Default EXCEPT !.width = a, !.maxr = b] : a \in Vals.width, b \in Vals.maxr}
+    \cup {[Default EXCEPT !.length = a, !.maxr = b] : a \in Vals.length, b \in Vals.maxr}
+    \cup {[Default EXCEPT !.rb = a, !.lb = b] : a \in ProbGrid, b \in ProbGrid}
+    \cup {[Default EXCEPT !.rb = a, !.tb = b] : a \in ProbGrid, b \in ProbGrid}
+    \cup {[Default EXCEPT !.rb = a, !.lt = b] : a \in ProbGrid, b \in ProbGrid}
+    \cup {[Default EXCEPT !.lb = a, !.tb = b] : a \in ProbGrid, b \in ProbGrid}
+    \cup {[Default EXCEPT !.lb = a, !.lt = b] : a \in ProbGrid, b \in ProbGrid}
+    \cup {[Default EXCEPT !.tb = a, !.lt = b] : a \in ProbGrid, b \in ProbGrid}
+    \cup UNION {{[Default EXCEPT !.width = a, !.rb = b], [Default EXCEPT !.length = a, !.lt = b],
+                 [Default EXCEPT !.seed = a - 1, !.tb = b], [Default EXCEPT !.maxr = a, !.lb = b]}
+                : a \in {-1, 0, 1}, b \in ProbGrid}
+
 RandGridPoint ==
     P(RandomElement({-1, 0, 1}), RandomElement({-1, 0, 1, 2}), RandomElement({-1, 0, 1, 2}), RandomElement({-1, 0, 1, 2}),
       RandomElement(ProbGrid), RandomElement(ProbGrid), RandomElement(ProbGrid), RandomElement(ProbGrid),
@@ -49,9 +68,9 @@ PctSweep == {[Default EXCEPT !.rb = Num(k, 100)] : k \in 1..99} \cup {[Default E
             \cup {[Default EXCEPT !.tb = Num(k, 100)] : k \in 1..99} \cup {[Default EXCEPT !.lt = Num(k, 100)] : k \in 1..99}
 
 Cases ==
-    CASE Family = "grid"    -> SetToSeq(OneOff) \o [i \in 1..K |-> TLCEval(RandGridPoint)]
+    CASE Family = "grid"    -> SetToSeq(OneOff \cup TwoOff) \o [i \in 1..K |-> TLCEval(RandGridPoint)]
       [] Family = "gridall" -> SetToSeq(Grid)
-      [] Family = "main"    -> SetToSeq(OneOff) \o [i \in 1..K |-> TLCEval(IF i % 2 = 0 THEN RandGridPoint ELSE RandAccepted)]
+      [] Family = "main"    -> SetToSeq(OneOff) \o SetToSeq(RandomSubset(IF K < 60 THEN K ELSE 60, TwoOff)) \o [i \in 1..K |-> TLCEval(IF i % 2 = 0 THEN RandGridPoint ELSE RandAccepted)]
       [] Family = "hist"    -> [i \in 1..K |-> LET p == TLCEval(RandAccepted)
                                                   q == [p EXCEPT !.seed = p.seed + 1]
                                               IN  <<p, q, p, [p EXCEPT !.fd = ~p.fd], p>>]
